@@ -49,6 +49,13 @@ EXPLANATION = (
     "with a loop variable that ranges over [None]+hierarchy without a "
     "dominating None test.")
 
+EXPLANATION += (
+    ' Added after the seeded rounds: tables filled inside loops over '
+    'the taxonomy levels are keyed by (level, label) '
+    '(R-KEY/node-identity), memo keys are complete (R-MEMO), zipped '
+    'lists are filled in lock-step (R-ALIGN).'
+)
+
 RULE_TEXT = (
     "one obligation per value-identity / provenance / dominance relation "
     "named above; non-trivial when both ends of the relation exist")
